@@ -8,6 +8,6 @@ CONSTANTS
   MaxOps = 4
 VIEW MCView
 CONSTRAINT Bound
-INVARIANTS TouchedInside RoundTrip16
+INVARIANTS TouchedInside RoundTrip16 PrefixOfLarger
 PROPERTIES Sticky AllOrNothing
 CHECK_DEADLOCK FALSE
